@@ -516,6 +516,36 @@ func (c *Ctx) streamReadSites(rp map[*ssa.Function]bool) (hdrRA, bodyRA []raSite
 			}
 		}
 	}
+	// a read inside a closure that captured the stream: the stream is the captured variable's value in the
+	// function that built the closure (a parameter spilled for capture by reference, or the value itself)
+	for i := range all {
+		v := all[i].stream
+		var fv *ssa.FreeVar
+		if u, ok := v.(*ssa.UnOp); ok && u.Op == token.MUL {
+			fv, _ = u.X.(*ssa.FreeVar)
+		} else {
+			fv, _ = v.(*ssa.FreeVar)
+		}
+		if fv == nil {
+			continue
+		}
+		b := flow.BoundValue(fv)
+		if al, ok := b.(*ssa.Alloc); ok {
+			var stored ssa.Value
+			n := 0
+			for _, ref := range flow.Referrers(al) {
+				if st, ok := ref.(*ssa.Store); ok && st.Addr == ssa.Value(al) {
+					n++
+					stored = st.Val
+				}
+			}
+			if n == 1 {
+				all[i].stream = stored
+			}
+		} else if b != nil {
+			all[i].stream = b
+		}
+	}
 	for d := 0; d < 2; d++ {
 		var next []raSite
 		for _, s := range all {
